@@ -44,7 +44,7 @@ def run_bounded(prop, tier, seed, only=None):
     for bc in BOUNDED:
         if bc.prop != prop or tier not in bc.tiers:
             continue
-        if only and only not in bc.name:
+        if only and not any(o in bc.name for o in only.split(",")):
             continue
         t0 = time.time()
         b = B(tier, seed)
